@@ -174,177 +174,100 @@ packet Logon {
         line2`,
     pack lengthOf,
 }// `tick` ""quote"" 'q'")).
-Eval vm_compute in ("<<<M1723>>>" ++ check (runes_of_ascii "
-
-  options // @lengthOf(
-
-{zchar
-=
-
-    char[]
-Z9_ =	'0'  ; 
-} options	{ asx
-=
-char[]
-
-}  root
-packet
-    leftPad 
-{ T
-
-@lengthOf(
-f32a  //
-) , }	//
-  root 
-        //x
-
-	// @lengthOf(
-    packet
-calculatedFrom
-{ u
-
-    {//	t
-char[] // packet A { u8 x, }
-T
-    `" ++ [233]%N ++ runes_of_ascii "`, match
-    stringy	/// triple
-  as//	t
-  	chars 
-{ 
-[ 
-0123456789  ]
-:
-T,
-    // `tick` ""quote"" 'q'
-		// " ++ [27880; 37322]%N ++ runes_of_ascii "
-  }
-    ,
-uint16
-    a1
-
-    @lengthOf(x
-) ,
-	string
-
-chars
-    `two words` ,
-} ,@calculatedFrom(
-    ""x y""
-)
-char[]
-	    // " ++ [27880; 37322]%N ++ runes_of_ascii "
+Eval vm_compute in ("<<<M1701>>>" ++ check (runes_of_ascii "root packet crc {
+    @lengthOf(As)
+    @calculatedFrom(""\" ++ [233]%N ++ runes_of_ascii """)
+    zchar[4294967296] MetaDataX `doc`,/// triple
+    rootA @calculatedFrom(""it's""),
+    @tag(65535)
+    @tag(7)
+    @tag(00)
+    len @lengthOf(A) `two words`,
+    // trailing space 
     // " ++ [128512]%N ++ runes_of_ascii " emoji
-    body
-    @lengthOf(
-lengthOf 
-)
-    /// triple
-    ,
-@lengthOf(
-	A
-
-)
-	rootA
-,@lengthOf(
-i64_
-) // packet A { u8 x, }
-	repeat
-f32a  {	lengthOf 
-// " ++ [128512]%N ++ runes_of_ascii " emoji
-    charz// a // b
-		`" ++ [28040; 24687; 31867; 22411]%N ++ runes_of_ascii "` ,
-	} 
-    // packet A { u8 x, }
-  ,
-
-    match
-	tag
-as 
-      //x
-  //	t
-		T
-{	[ 3] 
-:
-falsey ,
-    }
-, 
-zchar[
-
-00
-] 
-charz@lengthOf( Pad
-
-)
-
-    ,
-
-    @tag( 3 )
-lengthOf
-{
-i16 
-As , 
-}
-    ,
-}
-
-root
-packet body
-
-{
-	}")).
-Eval vm_compute in ("<<<M1678>>>" ++ check (runes_of_ascii "options {
-    StringPrefixLenType = u64;
-    ArrayPrefixLenType = u32;
-    FixedStringPadFromLeft = false;
-}
-
-packet Party {
-    zchar[7] OrderId,
-    InTail6 {
-        repeat char[1] msgKind,
-        char[3] Tail,
-        char[3] Flags,
-        i16 tag7,
+    string rootA @lengthOf(pack),
+    // " ++ [128512]%N ++ runes_of_ascii " emoji
+    // trailing space 
+    repeat zchar,
+    @calculatedFrom(""abc"")
+    @leftPad('\x00')
+    @rightPad()
+    match x_y_z as Z9_ {
+        ""it's"" : Logon,
+        ""x y"" : Packet,
+        ""abc"" : trueish,
+        4294967296 : repeatCount,
+        """ ++ [128512]%N ++ runes_of_ascii """ : x_y_z,
     },
-    @rightPad('0')
-    char[12] clOrdID,
+    char[10] stringy `it's`,
+    @leftPad('\x00')
+    rootA @lengthOf(i64_),
 }
 
-packet Quote {
-    @leftPad('0')
-    char[11] price,
-    repeat InCount7 {
-        i32 x,
-        Party,
-        u8 Ref,
-        u8 tag7,
+MetaData falsey {
+    Packet repeatCount `tab	here`,
+}
+
+MetaData string_ {
+    float64 roots `line1
+        line2`,
+    char As `
+        `,
+    zchar[65535] falsey `a\`,
+    A T,
+    _x metadata,
+}
+
+packet _x {
+    zchar[255] string_ @lengthOf(u128) `{ , }`,
+}
+
+root packet Packet {
+    repeat lengthOf,
+}")).
+Eval vm_compute in ("<<<M1640>>>" ++ check (runes_of_ascii "options {
+    string_ = false;
+    falsey = char[4294967296];
+}
+
+packet zchar {
+    match float as len {
+        [""" ++ [233]%N ++ runes_of_ascii "t" ++ [233]%N ++ runes_of_ascii """] : matchKey,
+        3 : u,
+        [4294967296, ""1""] : zchar,
     },
-    char[] seqNo,
-    Party,
 }
 
-packet Logon {
-    @rightPad('\x00')
-    char[5] Note,
-    i16 sym,
-    InPrice72 {
-        char[9] Ref,
-        zchar[1] venue,
+MetaData T {
+}
+
+packet packetx {
+    uint16 uint8x @calculatedFrom(""it's""),
+    stringy {
+        i16 crc `{ , }`,
     },
-    char[] clOrdID,
-}
-
-root packet Reject {
-    repeat Logon,
-    @leftPad(' ')
-    char[4] seqNo,
-    zchar[5] Acct,
-    u32 x,
-    u16 f1 @lengthOf(Body),
-    match x as Body {
-        [169, 74] : Quote,
-        45 : Party,
-        7 : Logon,
+    zchar[00] x,
+    zchar {
+        uint64 tag,
+        zchar f32a `say ""hi""`,
+        uint32 A `{ , }`,
+        match _x as falsey {
+            [007, """ ++ [128512]%N ++ runes_of_ascii """] : matchKey,
+            // " ++ [128512]%N ++ runes_of_ascii " emoji
+            [0123456789, 3] : T,
+            // " ++ [128512]%N ++ runes_of_ascii " emoji
+            // `tick` ""quote"" 'q'
+            1 : Foo,
+        },// trailing space 
+    },
+    A,
+    zchar[4294967296] string_ @lengthOf(float),
+    match rootA as As {
+        [
+            255, 0123456789, ""it's"", """ ++ [233]%N ++ runes_of_ascii "t" ++ [233]%N ++ runes_of_ascii """, ""{,}"",
+            ""abc"", """ ++ [233]%N ++ runes_of_ascii "t" ++ [233]%N ++ runes_of_ascii """
+        ] : int,
+        4294967296 : tag,
     },
 }")).
 Eval vm_compute in ("<<<M209>>>" ++ check (runes_of_ascii "packet calculatedFrom { // a // b
@@ -734,22 +657,21 @@ char[]int
 
   }
 ")).
-Eval vm_compute in ("<<<M205>>>" ++ check (runes_of_ascii "  root packet
-    chars{ string T `say ""hi""`
-, @tag(
-    1  ) body { repeat o { f64 Packet @calculatedFrom( ""a\\"") ,  } , }	,
-} packet pack
-// @lengthOf(
-// a // b
-{
-@tag( 4294967296 // `tick` ""quote"" 'q'
-) repeat char[]
-    Logon
+Eval vm_compute in ("<<<M370>>>" ++ check (runes_of_ascii "  root packet trueish // " ++ [128512]%N ++ runes_of_ascii " emoji
+{ char[] MetaDataX , @leftPad (
     // trailing space 
-    , repeat
-BodyLength len ,
-    // c
-    }")).
+    '0' )match float as
+//x
+// trailing space 
+crc { 0123456789 :// " ++ [27880; 37322]%N ++ runes_of_ascii "
+chars	, ""{,}"" : i8i8,
+}
+, f32a
+    // " ++ [128512]%N ++ runes_of_ascii " emoji
+    f32a `tab	here` ,// " ++ [128512]%N ++ runes_of_ascii " emoji
+@lengthOf( Foo )
+    Packet@calculatedFrom( """ ++ [28040; 24687]%N ++ runes_of_ascii """ ) `it's` , }
+")).
 Eval vm_compute in ("<<<M1856>>>" ++ check (runes_of_ascii "packet MDSnapshotZZ {
     u8 a,
 }
